@@ -235,6 +235,11 @@ class AbsInt:
             if not d["p"]:
                 cv = self._call_value(t, store) if self.track_values else None
                 alts = self.call_fork(bb, t, store) if (cv is None and self.call_fork is not None) else None
+                if alts:
+                    # the case may already be decided on this path (an earlier match / predicate on the same value set its flag)
+                    decided = [a for a in alts if a[1] and set(a[1]) <= flags]
+                    if len(decided) == 1:
+                        alts = decided
                 if alts and t.get("target") is not None and t["target"] in succs:
                     # a predicate on a runtime value the client splits by cases (`received.is_some()`)
                     out = []
